@@ -354,6 +354,57 @@ def late_reader_program(rng, counters):
     return [keys, names, srcs, cname], tr, "", False, True
 
 
+def load_program(rng, counters):
+    """Dumps as scripts produce them: concatenations of dump lists that SHARE definitions (exact duplicate pairs) and
+    disagree on others (two right-hand sides for one target), loaded in one load() call with overwrite on / off, pairs
+    given as tuples or lists; then dump(), the task order, run_tasks() and assignments.  Everything is part of the transcript."""
+    import xdeps
+    m = xdeps.Manager()
+    d = {"a": 1.5, "b": -2.0, "c": 0.5}
+    d.update({"k%d" % i: 0.0 for i in range(6)})
+    r = m.ref(d, "r")
+    forms = ["(r['%s'] + r['%s'])", "(r['%s'] * r['%s'])", "(r['%s'] - 2 * r['%s'])", "(3 * r['%s'] + r['%s'] ** 2)"]
+
+    def pair(i):
+        srcs = ["a", "b", "c"] + ["k%d" % j for j in range(i)]
+        return ("r['k%d']" % i, rng.choice(forms) % (rng.choice(srcs), rng.choice(srcs)))
+    dump_a = [pair(i) for i in rng.sample(range(6), rng.randrange(2, 6))]
+    dump_b = [p for p in dump_a if rng.random() < 0.5]                      # shared definitions: exact duplicates
+    dump_b += [pair(int(p[0][4])) for p in dump_a if rng.random() < 0.4]     # other definitions of the same targets
+    dump_b += [pair(i) for i in rng.sample(range(6), rng.randrange(0, 3))]
+    rng.shuffle(dump_b)
+    pairs = dump_a + dump_b
+    if rng.random() < 0.5:
+        pairs = [list(p) for p in pairs]
+    overwrite = rng.random() < 0.6
+    tr = []
+    pre = rng.random() < 0.3
+    if pre:
+        r["k0"] = r["a"] * 7                                     # an existing definition met by the load
+    try:
+        m.load(pairs, overwrite=overwrite)
+        tr.append(["load", "ok"])
+    except Exception as exc:
+        tr.append(["load", "E:" + type(exc).__name__])
+    tr.append(["dump", [list(x) for x in m.dump()]])
+    tr.append(["tasks", [str(t) for t in m.tasks]])
+    for step in (("run_tasks",), ("set", "a", 3.0), ("set", "b", 0.25), ("set", "k5", 9.0)):
+        try:
+            if step[0] == "run_tasks":
+                m.run_tasks()
+            else:
+                r[step[1]] = step[2]
+            out = "ok"
+        except Exception as exc:
+            out = "E:" + type(exc).__name__
+        tr.append([list(step), out, sorted((k, canon(v)) for k, v in d.items())])
+    tr.append(["dump-after", [list(x) for x in m.dump()]])
+    counters["load_programs_with_duplicate_pairs"] = counters.get("load_programs_with_duplicate_pairs", 0) + (1 if len(set(map(tuple, pairs))) < len(pairs) else 0)
+    counters["load_programs_with_conflicting_pairs"] = counters.get("load_programs_with_conflicting_pairs", 0) + (
+        1 if len({p[0] for p in pairs}) < len(set(map(tuple, pairs))) else 0)
+    return [["load-program", pre, overwrite], [list(p) for p in pairs]], tr, digest([]), False, True
+
+
 def run_shard(spec):
     rng = random.Random("C20:%s:corpus" % spec["seed"])      # identical corpus in every configuration
     mgrmon.install_run_events()
@@ -375,7 +426,8 @@ def run_shard(spec):
     for kind, n, fn in (("history", n_hist, history_program), ("term", n_terms, term_program), ("family", n_fam, family_program),
                         ("exotic-keys", max(20, n_hist // 4), exotic_key_program),
                         ("owner-readers", max(40, n_hist // 2), owner_reader_program),
-                        ("late-readers", max(60, n_hist // 2), late_reader_program)):
+                        ("late-readers", max(60, n_hist // 2), late_reader_program),
+                        ("load-programs", max(60, n_hist // 2), load_program)):
         for i in range(n):
             sub = random.Random("C20:%s:%s:%d" % (spec["seed"], kind, i))     # per-program stream: robust to skips
             res = fn(sub, counters)
